@@ -603,6 +603,11 @@ def create_kernel_initializer(kernel_initializer_id,
   if joint_unimodalities:
     for dimensions, direction in joint_unimodalities:
       for dim in dimensions:
+        if dim < 0 or dim >= len(lattice_sizes):
+          raise ValueError("Dimension constrained by joint unimodality is not "
+                           "within the range of the lattice. Joint unimodality "
+                           "dimension: %s, total number of dimensions: "
+                           "%s" % (dim, len(lattice_sizes)))
         all_unimodalities[dim] = direction
 
   if kernel_initializer_id in ["linear_initializer", "LinearInitializer"]:
